@@ -60,7 +60,8 @@ def good_value(g, S, t, rnd, depth=0):
         return [good_value(g, S, t[1], rnd, depth + 1) for _ in range(rnd.choice([0, 1, 2]))]
     n = t[1]
     if n == "Int":
-        return rnd.choice([0, 1, -5, 2 ** 31 - 1, -2 ** 31])
+        # integral floats are Int values too (5.0 is 5); the random stream is not disturbed: one choice from one list
+        return rnd.choice([0, 1, -5, 2 ** 31 - 1, -2 ** 31, 5.0, -0.0, 1e9, 2147483647.0, -2147483648.0])
     if n == "Float":
         return rnd.choice([1.5, 0.0, -2.25, 3, 1e100])
     if n == "String":
@@ -243,6 +244,9 @@ def _chunk(seeds):
                         # ---- A3
                         try:
                             lit = value_to_literal(v, gtype)
+                            if lit is None:
+                                # every accepted value of a type made of built-in scalars, enums and input objects can be written down
+                                viol.append(("A3-accepted-value-has-no-literal", {"value": repr(v)[:80], "coerced": repr(coerced)[:80]}))
                             if lit is not None:
                                 back = coerce_input_literal(lit, gtype)
                                 if not same(back, coerced):
